@@ -62,13 +62,13 @@ def setChunkSize (a : Inst) (c : Nat) : Inst :=
 
 def setOffset (a : Inst) (k : Int) : Inst := { a with offset := k }
 
-/-- the per-line function of an instance -/
-def lineFn (a : Inst) : Str → R LineOut × Nat := assembleLine a.opt
+/-- the per-line function as a function of the option byte -/
+abbrev LineFnOf := Nat → Str → R LineOut × Nat
 
-/-- `asm_assemble_str`: new instance state and the return value (true = EXIT_SUCCESS);
-    an `Err.ub` is passed through for the harness to see. -/
-def asmAssembleStr (a : Inst) (text : Str) : Inst × Except Err Unit :=
-  let res := assembleAll (lineFn a) a text false
+/-- `asm_assemble_str`, generic in the per-line function: new instance state and the return
+    value; an `Err.ub` is passed through for the harness to see. -/
+def asmAssembleStrWith (lfo : LineFnOf) (a : Inst) (text : Str) : Inst × Except Err Unit :=
+  let res := assembleAll (lfo a.opt) a text false
   match res.ret with
   | .error e => (res.a, .error e)
   | .ok bp => ({ res.a with offset := toInt32 bp }, .ok ())
@@ -78,17 +78,23 @@ def countSetup (a : Inst) (c : Int) : Inst :=
   { a with mode := if c < 2 then .assemble else .count,
            chunkSize := (c % (2 ^ 64 : Int)).toNat }
 
-/-- `asm_assemble_string_counting_chunks(al, str, chunk_size, dest)`;
-    result: instance, return value, `*dest` (if `dest` was given). -/
-def asmCountingChunks (a : Inst) (text : Str) (c : Int) (hasDest : Bool) :
+/-- `asm_assemble_string_counting_chunks(al, str, chunk_size, dest)`, generic in the per-line
+    function; result: instance, return value, `*dest` (if `dest` was given). -/
+def asmCountingChunksWith (lfo : LineFnOf) (a : Inst) (text : Str) (c : Int) (hasDest : Bool) :
     Inst × Except Err Unit × Option Int :=
   let savedMode := a.mode
   let savedChunk := a.chunkSize
   let a1 := countSetup a c
-  let res := assembleAll (lineFn a1) a1 text hasDest
+  let res := assembleAll (lfo a1.opt) a1 text hasDest
   let a2 := { res.a with mode := savedMode, chunkSize := savedChunk }
   match res.ret with
   | .error e => (a2, .error e, res.brks)
   | .ok bp => ({ a2 with offset := toInt32 bp }, .ok (), res.brks)
+
+/-- the library: the per-line function is `assembleLine` -/
+def asmAssembleStr : Inst → Str → Inst × Except Err Unit := asmAssembleStrWith assembleLine
+
+def asmCountingChunks : Inst → Str → Int → Bool → Inst × Except Err Unit × Option Int :=
+  asmCountingChunksWith assembleLine
 
 end AL.Impl
